@@ -68,6 +68,7 @@ from exabgp.rib.route import Route
 
 # IP address validation constants
 EXTENDED_COMMUNITY_TARGET_PARTS = 2  # Target extended community has 2 parts (ASN:value)
+LARGE_COMMUNITY_PARTS = 3  # <global administrator>:<local data 1>:<local data 2>
 
 
 def prefix(tokeniser: 'Tokeniser') -> IPRange:
@@ -356,10 +357,10 @@ def _community(value: str) -> Community:
 
         prefix_int, suffix_int = int(prefix), int(suffix)
 
-        if prefix_int > Community.MAX:
+        if prefix_int > _SIZE_H:
             raise ValueError('invalid community {} (prefix too large)'.format(value))
 
-        if suffix_int > Community.MAX:
+        if suffix_int > _SIZE_H:
             raise ValueError('invalid community {} (suffix too large)'.format(value))
 
         return Community(pack('!L', (prefix_int << 16) + suffix_int))
@@ -409,15 +410,14 @@ def community(tokeniser: 'Tokeniser') -> Communities:
 def _large_community(value: str) -> LargeCommunity:
     separator = value.find(':')
     if separator > 0:
-        prefix, affix, suffix = value.split(':')
+        parts = value.split(':')
+        if len(parts) != LARGE_COMMUNITY_PARTS or not all(c.isascii() and c.isdigit() for c in parts):
+            raise ValueError('invalid large community {}'.format(value))
 
-        if not any(map(lambda c: c.isdigit(), [prefix, affix, suffix])):
-            raise ValueError('invalid community {}'.format(value))
-
-        prefix_int, affix_int, suffix_int = map(int, [prefix, affix, suffix])
+        prefix_int, affix_int, suffix_int = map(int, parts)
 
         for i in [prefix_int, affix_int, suffix_int]:
-            if i > LargeCommunity.MAX:
+            if i > _SIZE_L:
                 raise ValueError('invalid community %i in %s too large' % (i, value))
 
         return LargeCommunity(pack('!LLL', prefix_int, affix_int, suffix_int))
